@@ -43,6 +43,9 @@ def live(seed, k, tier):
                     s.convert(h, u, src, 1000 + h, dst, track=False)
         h += 1
     s.grade(h); s.tip(h)
+    # the ledger-level read methods of the API (rich lists of every asset, issuance, rates) are called after every block of the
+    # PIP-10 part: reads may not change which conversions are admissible
+    s.control(api=True, apiLight=list(range(pip, h)))
     return s
 
 
